@@ -73,6 +73,13 @@ namespace hook
             usleep(200 + (tl.state >> 8) % 5000);
             return;
         }
+        // a CForest worker about to take a shared state from its pending list: holding it here keeps the list pending while
+        // the other workers report further solutions (which replace the list)
+        if (r < 30 && strstr(id, "next_sample") != nullptr)
+        {
+            usleep(200 + (tl.state >> 8) % 3000);
+            return;
+        }
         if (r < 55) return;
         if (r < 80) sched_yield();
         else usleep(1 + (tl.state >> 8) % (r < 95 ? 20 : 200));
@@ -577,6 +584,7 @@ static void sPlanner(Sink &sink, const Args &a, long c, int which, Rng &rng)
     auto w = makeWorld(wseed, KINDS[widx], false);
     w->rangeMode = 0;
     OracleCtx ctx{sink, *w, pi, "C19", "solution-", nullptr};
+    ctx.goalSetGrows = lazyGoal;
     auto pdef = makePdef(*w);
     std::shared_ptr<ob::GoalLazySamples> lazy;
     if (lazyGoal)
